@@ -2,8 +2,10 @@
    extracted inductive types; no Extract Constant. *)
 From Coq Require Import ExtrOcamlBasic.
 From Coq Require Extraction.
-From I18n Require Import Lib.Outcome Model.IntExpr Model.PluralForms.
+From I18n Require Import Lib.Outcome Model.IntExpr Model.PluralForms Model.Ling Model.LingData.
 Extraction Language OCaml.
 Extraction "model.ml"
   IntExpr.parse_string IntExpr.pyeval IntExpr.codomain IntExpr.period
-  PluralForms.parse_plural_forms PluralForms.check_plurals_core.
+  PluralForms.parse_plural_forms PluralForms.check_plurals_core
+  Ling.parse_language Ling.parse_language_Z Ling.str_language Ling.fix_codes Ling.cli_language Ling.lookup_munched
+  Ling.lcmessages_parent Ling.basename Ling.splitext Ling.lg_endswith Ling.s_dot_po Ling.check_language LingData.gen_cfg.
